@@ -16,6 +16,8 @@
 (*                                                                         *)
 (* Outcome kinds (classes of the property in brackets):                    *)
 (*   match    [has-match]    regular file, some line matches               *)
+(*   prematch [has-match]    the same, read through a --pre command that   *)
+(*                           works (it hands the file through)             *)
 (*   nomatch  [no-match]     regular file, no line matches                 *)
 (*   binary   [binary]       NUL byte first, a matching line after it      *)
 (*   perm     [cannot-open]  regular file, mode 000                        *)
@@ -59,18 +61,18 @@ VARIABLES scn, pc
 vars == <<scn, pc>>
 
 \* ---------------------------------------------------------------- vocabulary
-Kinds    == {"match", "nomatch", "binary", "perm", "dangling", "linkL", "dir000", "dir444", "eio", "prefail"}
+Kinds    == {"match", "prematch", "nomatch", "binary", "perm", "dangling", "linkL", "dir000", "dir444", "eio", "prefail"}
 Modes    == {"standard", "quiet", "l", "c", "files", "json", "fwm"}
 Namings  == {"explicit", "traversal"}
 ArgKinds == {"ok", "badregex", "badglob", "badenc", "badflag"}
 
-Class(k) == CASE k = "match"   -> "has-match"
+Class(k) == CASE k \in {"match", "prematch"} -> "has-match"
               [] k = "nomatch" -> "no-match"
               [] k = "binary"  -> "binary"
               [] k \in {"perm", "dangling", "linkL", "dir000", "dir444"} -> "cannot-open"
               [] k \in {"eio", "prefail"}             -> "read-error"
 
-Healthy(k) == k \in {"match", "nomatch", "binary"}
+Healthy(k) == k \in {"match", "prematch", "nomatch", "binary"}
 
 \* the step of processing a path at which a faulty kind fails
 FailStage(k) == CASE k \in {"dangling", "linkL", "dir000"} -> "list"
@@ -104,7 +106,7 @@ Hits(k, s) ==
   /\ ~Errs(k, s)
   /\ CASE s.mode = "files" -> TRUE
        [] s.mode = "fwm"   -> k = "nomatch"
-       [] OTHER            -> k = "match" \/ (k = "binary" /\ s.naming = "explicit")
+       [] OTHER            -> k \in {"match", "prematch"} \/ (k = "binary" /\ s.naming = "explicit")
 
 Idx(s) == 1..Len(s.files)
 
